@@ -248,7 +248,7 @@ fn read(rng: &mut Rng, ctx: &mut Ctx) {
             if g.metadata.is_some() != r.metadata.is_some() { c.fail("C16", "presence of the metadata element not reported as in the file"); } } }
         // the same game written into sinks that accept a few bytes per call (pipes, sockets, encoders), are interrupted, or fail
         if k % 4 == 2 { if let Some(g) = &g { if let Ok(o) = write_slp(g) {
-            let kk = [1usize, 3, 5, 64, 300, 4096][(k / 4) % 6];
+            let kk = [1usize, 3, 5, 64, 300, 4096][(k / 4 + k / 28) % 6]; // (the second term breaks the lock-step with the container shapes, which repeat every 12 cases)
             let mut sink = crate::suites2::ShortSink::new(kk, None, if k % 8 == 2 { 3 } else { 0 });
             let got = std::panic::catch_unwind(std::panic::AssertUnwindSafe(|| slippi::write(&mut sink, g).map_err(|e| e.to_string())));
             match got { Ok(Ok(())) => { if sink.out != o { let m = format!(".slp written into a sink that takes {} bytes per call differs from the one written into a Vec (lengths {} vs {})", kk, sink.out.len(), o.len()); c.fail("C01", m.clone()); c.fail("C17", m.clone());
